@@ -41,6 +41,12 @@ def cases(draw, pools=False):
     o = draw(c10.options(m["n"], len(m["sizes"])))
     if "max_iters" not in o["omit"]:
         o["max_iters"] = min(o["max_iters"], 20 if small else 200)
+    # real-valued contact matrices: every entry scaled by an exact dyadic factor (entries in (0,1) count as ONE non-zero each)
+    cscale = draw(st.sampled_from([None, None, None, 0.015625, 0.25]))
+    if cscale:
+        m = dict(m, rows=[[r[0], r[1], r[2] * cscale] for r in m["rows"]])
+        if o["min_count"]:
+            o = dict(o, min_count=o["min_count"] * cscale)
     nnz = len(m["rows"])
     cs_pool = [3, 2, 1, 7, 5] if small else [7, 5, 13]
     chunksize = draw(st.sampled_from(cs_pool + cs_pool + [max(1, nnz - 1), max(1, nnz), nnz + 1, 10**7]))
@@ -219,8 +225,8 @@ def check_sched(case, ctx: Ctx):
         rec4 = RecordingMap("adversarial" if not kind.startswith("pool") else kind, case["perm_seed"] + 1, pool)
         parts = call("split().pipe(identity).gather()", lambda: split(clr, map=rec4, chunksize=case["chunksize"])
                      .pipe(lambda chunk: {k: np.array(v) for k, v in chunk["pixels"].items()}).gather())
-        got = sorted((int(a), int(b), int(c)) for p in parts for a, b, c in zip(p["bin1_id"], p["bin2_id"], p["count"]))
-        check(got == sorted(tuple(r) for r in case["rows"]),
+        got = sorted((int(a), int(b), float(c)) for p in parts for a, b, c in zip(p["bin1_id"], p["bin2_id"], p["count"]))
+        check(got == sorted((r[0], r[1], float(r[2])) for r in case["rows"]),
               lambda: f"split(chunksize={case['chunksize']}) returned {len(got)} pixel records, stored {nnz} (each must be visited exactly once)")
         # a split object is evaluated more than once: two pipes derived from it, and one pipe run twice
         sp = split(cooler.Cooler(path), map=RecordingMap("lazy", 0), chunksize=case["chunksize"])
